@@ -2,6 +2,7 @@ import TsVerif.Common.IO
 import TsVerif.Common.Tree
 import TsVerif.C17.Judge
 import TsVerif.C17.Merge
+import TsVerif.C17.MergeMulti
 /-!
 Driver for C17.  Reads the case stream written by `harness/src/bin/c17` and prints one line per case:
 
@@ -11,6 +12,8 @@ Driver for C17.  Reads the case stream written by `harness/src/bin/c17` and prin
 * `run render` → `<id> kind=R corr=… wf=<0|1> judge=<ok|FAIL|panic> cause=<…>`;
 * `run merge`  → `<id> kind=M corr=<ok|DIFF> wf=<ok|FAIL> capsin= capsok= ncaps= depth= err=`
   (`mergeLayer` on the layer's capture list vs the real single-layer event stream);
+* `run mmerge` → `<id> kind=N corr=<ok|DIFF> fin=<0|1> wf= nlayers= maxlayerdepth= ncaps= depth= err=`
+  (`mergeLayers` on all layers' raw captures vs the real multi-layer event stream, no locals);
 * `run hl`     → `<id> kind=H corr=… wf=<ok|FAIL> inj=<ok|FAIL> html=<ok|FAIL|panic> loc=<ok|FAIL> cause=<…>
                   nsp=<spans> ninj=<injections> depth=<max nesting> err=<…>`.
 -/
@@ -31,6 +34,8 @@ structure St where
   injs : List Inj := []
   locals : List (Nat × Nat × Nat × Nat) := []
   caps : List Cap := []
+  defs : Array LayerDef := #[]
+  top : List Nat := []
 
 def unhx (s : String) : Bytes := if s == "-" then [] else unhexBytes s
 
@@ -134,6 +139,28 @@ def parseCaps (s : String) : List Cap :=
     | [a, b, h] => some { s := natOf a, e := natOf b, h := if h == "n" then none else some (natOf h) }
     | _ => none
 
+def parseRCaps (s : String) : List RCap :=
+  if s == "-" then [] else (s.splitOn ",").filterMap fun t => match t.splitOn "-" with
+    | [a, b, nd, k] =>
+      let kind : RKind :=
+        if k == "n" then .hl none
+        else if k.startsWith "I" then
+          let r := (k.drop 1).toString
+          .inj (if r == "" then [] else (r.splitOn "+").map natOf)
+        else .hl (some (natOf k))
+      some { s := natOf a, e := natOf b, node := natOf nd, kind := kind }
+    | _ => none
+
+/-- `run mmerge`: the multi-layer merge model against the real event stream. -/
+def runMMerge (s : St) : String :=
+  let n := s.src.length
+  let defs := s.defs.toList
+  let (m, fin) := mergeLayers defs s.top n
+  let corr := if decide (m = s.evs) then "ok" else "DIFF"
+  let wf := judgeEvents n s.evs
+  let maxd := defs.foldl (fun a d => max a d.depth) 0
+  s!"{s.id} kind=N corr={corr} defsin={if defsIn n defs then 1 else 0} fin={if fin then 1 else 0} wf={if wf then "ok" else "FAIL"} nlayers={defs.length} maxlayerdepth={maxd} ncaps={totalCaps defs} depth={maxDepth s.evs} err={s.err}"
+
 /-- `run merge`: the single-layer merge model against the real event stream. -/
 def runMerge (s : St) : String :=
   let n := s.src.length
@@ -162,6 +189,9 @@ def step (s : St) (line : String) : IO St := do
   | ["run", "hl"] => IO.println (runHl s); return s
   | ["caps", c] => return { s with caps := parseCaps c }
   | ["run", "merge"] => IO.println (runMerge s); return s
+  | ["layer", _, d, c] => return { s with defs := s.defs.push { depth := natOf d, caps := parseRCaps c } }
+  | ["top", t] => return { s with top := parseNats t }
+  | ["run", "mmerge"] => IO.println (runMMerge s); return s
   | _ => return s
 
 def main : IO Unit := do
